@@ -65,6 +65,16 @@ package tui
 //@ func LightRenderer.csi trusted
 //@ func LightRenderer.disableMouse
 //@ requires r != nil
+// flush: what goes to the terminal switches autowrap off while the queued output is drawn and always ends by
+// switching it on again (ESC [ ? 7 h), whether or not the cursor is shown - the last flush before exit included.
+//@ func LightRenderer.flush
+//@ property C14
+//@ requires r != nil
+//@ modifies *r
+//@ callsite flushRaw requires len(arg0) >= 5 && arg0[len(arg0)-5] == 27 && arg0[len(arg0)-4] == 91 && arg0[len(arg0)-3] == 63 && arg0[len(arg0)-2] == 55 && arg0[len(arg0)-1] == 104
+//@ func LightRenderer.flushRaw trusted
+//@ requires r != nil
+
 // repeat: a non-positive count gives the empty string (window arithmetic may go negative), never a panic.
 //@ func repeat
 //@ property C14
